@@ -230,16 +230,16 @@ def run_x(out: Outcome, programs, prop, max_cex=8, nshards=None, timeout_s=600, 
             raise Infra("corpus still fails after removing failing groups: " + json.dumps(errs2)[:1500])
         out.extra["declarations_rejected_by_rustc"] = sorted(bad)
     xrun.bind_rawnames(progs, dumps)
-    ann = xrun.annotate(work, progs, dumps)
+    ann0 = xrun.annotate(work, progs, dumps, {})          # inventory only (no contracts) to learn what exists
     sel = {}
     missing_fn = []
     for p in progs:
         hs = C.select(p, C.program_harnesses(p, want_history=history), prop)
         have = set()
         for t in [e.name for e in p.enums] + [s.name for s in p.structs]:
-            if t in ann:
-                have |= xrun.inventory_fns(ann[t][1])
-                out.unsafe_tokens += ann[t][1]["unsafe_tokens"]
+            if t in ann0:
+                have |= xrun.inventory_fns(ann0[t][1])
+                out.unsafe_tokens += ann0[t][1]["unsafe_tokens"]
         keep = []
         for h in hs:
             miss = [n for n in h.needs if tuple(n) not in have]
@@ -252,6 +252,10 @@ def run_x(out: Outcome, programs, prop, max_cex=8, nshards=None, timeout_s=600, 
         out.notes.append(f"{len(missing_fn)} obligations could not be stated because the expansion lacks the function: "
                          + "; ".join(f"{a}: {b}" for a, b in missing_fn[:5]))
         out.extra["obligations_not_statable"] = [a for a, _ in missing_fn]
+    ann = xrun.annotate(work, progs, dumps, sel)
+    for t, (_, inv) in ann.items():
+        if inv["unmatched_contracts"]:
+            raise Infra(f"contracts could not be attached in {t}: {inv['unmatched_contracts'][:3]}")
     n = sum(len(v) for v in sel.values())
     if n == 0:
         return
@@ -264,6 +268,9 @@ def run_x(out: Outcome, programs, prop, max_cex=8, nshards=None, timeout_s=600, 
     out.programs += len(progs)
     byname = {h.name: (p, h) for p in progs for h in sel[p.pid]}
     # a contract may only be used as a stub if its own proof passed in this run (or is planned elsewhere)
+    slow = sorted(((res[n].get("duration_ms") or 0, n) for n in byname), reverse=True)[:5]
+    out.extra.setdefault("slowest_harnesses_ms", [])
+    out.extra["slowest_harnesses_ms"] += [[n, d] for d, n in slow]
     failures = []
     for name, (p, h) in byname.items():
         r = res[name]
